@@ -21,6 +21,7 @@ enum {
   QF_WORD32,       // every word below 2^32 (32-bit data in 64-bit lanes), uniformly: half of them have bit 31 set
   QF_WORD32MAX,    // every word 2^32 - 1
   QF_MIXEDWIDTH,   // per element: all four words below 2^16, below 2^32, below 2^48 or full width
+  QF_HIGH32,       // every word a multiple of 2^32 (low half zero, high half random): what k<<32 looks like
   QF_N
 };
 extern const char* const q120_fam_name[QF_N];
